@@ -118,7 +118,7 @@ def INT_MAX : Int := 2147483647
 
 /-- the instants `datetime_tai` supports: the day number ⌊t/86400⌋ lies in `[INT_MIN + 11017, INT_MAX - 4]`
 (`day -= 11017` and `day + 4` are the two places where an `int` could overflow), i.e.
-`-185 541 635 289 600 ≤ t ≤ 185 542 587 100 799` (years −5 877 641 … 5 881 580). -/
+`-185 541 635 318 400 ≤ t ≤ 185 542 586 841 599` (years −5 877 641 … 5 881 580). -/
 def tLo : Int := (INT_MIN + 11017) * 86400
 def tHi : Int := (INT_MAX - 4) * 86400 + 86399
 def supported (t : Int) : Bool := tLo ≤ t && t ≤ tHi
